@@ -315,6 +315,21 @@ def audit_queries(ctx, dn, G, m, tag="", ts=None, full=True):
             ctx.expect(tag + "order(t)", G.order(t), len(exp_nodes), detail)
         for n in some + ["__nope__"]:
             ctx.expect(tag + "has_node(n,t)", G.has_node(n, t), n in exp_nodes, dict(t=t, n=n))
+        if t is None:
+            # something that cannot be a node is not a node (networkx semantics of the static graph)
+            ctx.expect(tag + "has_node(unhashable)", G.has_node([one]), S.has_node([one]), dict(n=[one]))
+        # pairs with an unknown end point are absent; has_successor / has_predecessor are has_interaction
+        # read forwards / backwards
+        for (a_, b_) in ((one, "__nope__"), ("__nope__", one), ("__nope__", "__nope2__")):
+            ctx.expect(tag + "has_interaction(unknown-endpoint,t)", G.has_interaction(a_, b_, t), False,
+                       dict(t=t, u=a_, v=b_))
+        if m.directed:
+            for a_ in some:
+                for b_ in some + ["__nope__"]:
+                    ctx.expect(tag + "has_successor(u,v,t)", G.has_successor(a_, b_, t), S.has_edge(a_, b_),
+                               dict(t=t, u=a_, v=b_))
+                    ctx.expect(tag + "has_predecessor(u,v,t)", G.has_predecessor(a_, b_, t), S.has_edge(b_, a_),
+                               dict(t=t, u=a_, v=b_))
 
         # --- interactions (+ in/out)
         for nb in nbunches:
